@@ -204,6 +204,7 @@ def plainOp : Op → Bool
   | .set _ v => plainV v
   | .emit v => plainV v
   | .setnested _ _ v => plainV v
+  | .markdeep _ _ v => plainV v
   | .rejectIf _ v => plainV v
   | _ => true
 
